@@ -8,7 +8,7 @@
    the text whose pair names are rules of the meta-grammar, and it accepts a sample grammar. *)
 From Coq Require Import List NArith ZArith String.
 Import ListNotations.
-From PP Require Import Base Syntax Spec SpecSyn SpecMono SpecNoErr SpecWf Grammars.
+From PP Require Import Base Syntax Spec SpecSyn SpecMono SpecNoErr SpecWf SpecTerm SpecCert Grammars.
 
 Theorem C10_meta_refs_defined : all_grammar (ref_defined meta_grammar) meta_grammar = true.
 Proof. vm_compute. reflexivity. Qed.
@@ -34,6 +34,11 @@ Proof.
   rewrite H in S. exact (proj2 (proj2 S)).
 Qed.
 
+(* the reader gives a verdict on every text *)
+Theorem C10_reader_terminates : forall text,
+  exists f, parse meta_grammar f meta_grammar_start text 0 <> Fuel.
+Proof. intros text. apply wf_auto_terminates. vm_compute. reflexivity. Qed.
+
 (* non-vacuity: the reader accepts  a = { "b" }  and rejects  a = { *)
 Example reader_accepts :
   exists s t, parse meta_grammar 400 meta_grammar_start
@@ -47,3 +52,4 @@ Print Assumptions C10_meta_refs_defined.
 Print Assumptions C10_reader_never_stuck.
 Print Assumptions C10_reader_verdict_stable.
 Print Assumptions C10_reader_tree_wellformed.
+Print Assumptions C10_reader_terminates.
